@@ -189,7 +189,13 @@ def build(recipe):
         else:
             def f(a0: pt.Expr, a1: pt.Expr, r: pt.ScratchVar):
                 return body([a0, a1], r)
-        f.__name__ = sd["name"]
+        # "pyname" = the Python function name PyTeal sees (SubroutineDefinition.name()); several routines may share
+        # it (factory-made subroutines from one inner def, a subroutine literally called main); "name" stays the
+        # recipe's own unique key
+        f.__name__ = sd.get("pyname", sd["name"])
+        if sd.get("abi"):
+            assert nval == 0 and not ref and sd["ret"] == "none"
+            return pt.ABIReturnSubroutine(f)
         rt = pt.TealType.uint64 if sd["ret"] == "uint64" else pt.TealType.none
         return pt.Subroutine(rt)(f)
 
@@ -477,6 +483,14 @@ class Gen:
                 loc.append(nm)
             self.subsig.append({"name": "f%d" % j, "nval": rng.randrange(0, 3), "ref": rng.random() < 0.35,
                                 "ret": rng.choice(["none", "uint64"]), "locals": loc})
+        # routine NAMES need not be unique: factory-made subroutines share the inner def's name, and nothing stops a
+        # user from calling a subroutine `main`
+        q = rng.random()
+        if nsub >= 2 and q < 0.35:
+            for sg in self.subsig:
+                sg["pyname"] = "helper"
+        elif nsub >= 1 and q < 0.45:
+            rng.choice(self.subsig)["pyname"] = "main"
         main_vars = [v for v in vars_ if not v.startswith("f")]
         for j, sg in enumerate(self.subsig):
             pool = list(sg["locals"])
@@ -489,6 +503,8 @@ class Gen:
             res = self.expr(ctx, 2) if sg["ret"] == "uint64" else None
             self.recipe["subs"].append({"name": sg["name"], "nval": sg["nval"], "ref": sg["ref"], "ret": sg["ret"],
                                         "body": body, "result": res})
+            if "pyname" in sg:
+                self.recipe["subs"][-1]["pyname"] = sg["pyname"]
         ctx = {"vars": main_vars, "sub": None, "callable": self.subsig, "dyn": dyn, "mvs": mvs}
         depth = 3 if self.size == "small" else 4
         main = self.prologue(ctx, main_vars) + self.stmts(ctx, depth, False, rng.randrange(1, 6 if self.size == "small" else 9))
@@ -682,6 +698,64 @@ def many_conditional_stores(k, load_var=0, first_unconditional=False):
             main.append(["if", ["fee"], [["store", "v%d" % i, ["int", 1]]], None])
     main += [["pop", ["load", "v%d" % load_var, 1]], ["ret", ["int", 1]]]
     return {"vars": {v: {"kind": "auto"} for v in vs}, "dyn": [], "mvs": [], "subs": [], "main": main}
+
+
+def same_name_family():
+    """Several routines with the SAME Python name; exactly one of them (every position in definition order, calls in
+    both orders) reads its own local before writing it on the path that skips the store; also a subroutine called
+    `main` (clean sub / bad main, bad sub / clean main) and same-named void ABIReturnSubroutines."""
+    out = []
+    site = [0]
+
+    def sub(j, bad, ret, abi=False, pyname="helper"):
+        z = "z%d" % j
+        site[0] += 2
+        if bad:
+            body = [["if", ["param", 0] if ret == "uint64" else ["fee"], [["store", z, ["int", 1]]], None]]
+        else:
+            body = [["store", z, ["int", 1]]]
+        d = {"name": "h%d" % j, "pyname": pyname, "nval": 1 if ret == "uint64" else 0, "ref": False, "ret": ret, "body": body,
+             "result": ["load", z, site[0]] if ret == "uint64" else None}
+        if ret == "none":
+            d["body"] = body + [["pop", ["load", z, site[0]]]]
+        if abi:
+            d["abi"] = True
+        return d
+
+    def prog(subs, order, main_bad=False):
+        vars_ = {"y": {"kind": "auto"}, "x": {"kind": "auto"}}
+        for sd in subs:
+            vars_["z" + sd["name"][1:]] = {"kind": "auto"}
+        main = [["store", "y", ["int", 0]]]
+        if main_bad:
+            site[0] += 1
+            main += [["if", ["fee"], [["store", "x", ["int", 1]]], None], ["pop", ["load", "x", site[0]]]]
+        for j in order:
+            sd = subs[j]
+            if sd["ret"] == "uint64":
+                main.append(["pop", ["callv", sd["name"], [["fee"]], None]])
+            else:
+                main.append(["call", sd["name"], [], None])
+        main.append(["ret", ["int", 1]])
+        return {"vars": vars_, "dyn": [], "mvs": [], "subs": subs, "main": main}
+
+    for n in (2, 3, 4):
+        for bad in list(range(n)) + [None]:
+            for ret in ("uint64", "none"):
+                for rev in (False, True):
+                    subs = [sub(j, j == bad, ret) for j in range(n)]
+                    order = list(range(n))[::-1] if rev else list(range(n))
+                    out.append((prog(subs, order), "same-name-%d-bad%s-%s%s" % (n, bad, ret, "-rev" if rev else "")))
+    for n in (2, 3):
+        for bad in range(n):
+            subs = [sub(j, j == bad, "none", abi=True) for j in range(n)]
+            out.append((prog(subs, list(range(n))), "same-name-abi-%d-bad%d" % (n, bad)))
+    # a subroutine literally called main
+    out.append((prog([sub(0, False, "uint64", pyname="main")], [0], main_bad=True), "sub-called-main-bad-main"))
+    out.append((prog([sub(0, True, "uint64", pyname="main")], [0], main_bad=False), "sub-called-main-bad-sub"))
+    out.append((prog([sub(0, False, "none", pyname="main"), sub(1, False, "none", pyname="main")], [0, 1], main_bad=True), "two-subs-called-main-bad-main"))
+    out.append((prog([sub(0, False, "none", pyname="main")], [0], main_bad=False), "sub-called-main-clean"))
+    return out
 
 
 def exhaustive_small(level):
